@@ -765,23 +765,61 @@ theorem validate_err_noNul {p : Str} {e : Err} (hn : '\x00' ∉ p) (h : validate
   simp only [Bool.false_eq_true, if_false] at h
   exact iteratepath_err p e h
 
-/-- `SubFS.delegate_path` on a path that resolves: the sub-directory followed by the components
-(`C03.sub_delegate_eq`) -/
-theorem delegate_of_resolve {sub cs : List Name} {p : Str} (hs : Clean sub)
+/-- `SubFS.delegate_path` refuses a NUL before anything else (the repaired first line) -/
+theorem delegate_of_nul {sub : List Name} {p : Str} (hn : '\x00' ∈ p) :
+    Wrap.Sub.delegate (absOf sub) p = .err .InvalidCharsInPath := by
+  simp [Wrap.Sub.delegate, Wrap.Sub.delegateWith, hn]
+
+theorem delegate_noNul {sub : List Name} {p : Str} (hn : '\x00' ∉ p) :
+    Wrap.Sub.delegate (absOf sub) p = Confine.subDelegate (absOf sub) p := by
+  simp [Wrap.Sub.delegate, Wrap.Sub.delegateWith, hn]
+
+/-- `SubFS.delegate_path` on a NUL-free path that resolves: the sub-directory followed by the
+components (`C03.sub_delegate_eq`) -/
+theorem delegate_of_resolve {sub cs : List Name} {p : Str} (hs : Clean sub) (hn : '\x00' ∉ p)
     (hr : resolve (splitSlash p) = some cs) :
     Wrap.Sub.delegate (absOf sub) p = .ok (absOf (sub ++ cs)) := by
   have hc : Clean cs := resolve_result_clean p cs hr
-  simp only [Wrap.Sub.delegate, Confine.subDelegate, absOf]
+  rw [delegate_noNul hn]
+  simp only [Confine.subDelegate, absOf]
   rw [normpath_of_resolve p cs hr, bind_ok]
   simp only [relpath, lstripSlash_mkp hc]
   exact join_sub_rel hs hc
 
-/-- … and on a path that climbs: refused, before anything is handed to the parent
+/-- … and on a NUL-free path that climbs: refused, before anything is handed to the parent
 (`C03.sub_delegate_err_iff`) -/
-theorem delegate_of_climb {sub : List Name} {p : Str} (hr : resolve (splitSlash p) = none) :
+theorem delegate_of_climb {sub : List Name} {p : Str} (hn : '\x00' ∉ p) (hr : resolve (splitSlash p) = none) :
     Wrap.Sub.delegate (absOf sub) p = .err .IllegalBackReference := by
-  simp only [Wrap.Sub.delegate, Confine.subDelegate]
+  rw [delegate_noNul hn]
+  simp only [Confine.subDelegate]
   rw [normpath_err_of_resolve p hr, bind_err]
+
+/-- **`delegate_path` is `validatepath` followed by the prefix**: it fails exactly when the
+reference's `validate` fails, with the same class, and otherwise hands the parent the
+sub-directory followed by the validated components -/
+theorem delegate_eq_validate {sub : List Name} (hs : Clean sub) (p : Str) :
+    Wrap.Sub.delegate (absOf sub) p =
+      (match validate p with
+       | .ok cs => .ok (absOf (sub ++ cs))
+       | .err e => .err e) := by
+  by_cases hn : '\x00' ∈ p
+  · rw [delegate_of_nul hn]; simp [validate, hn]
+  · cases hr : resolve (splitSlash p) with
+    | some cs =>
+      rw [delegate_of_resolve hs hn hr]
+      simp [validate, hn, QueryLemmas.iteratepath_of_resolve p cs hr]
+    | none =>
+      rw [delegate_of_climb hn hr]
+      have : iteratepath p = .err .IllegalBackReference := by
+        unfold iteratepath
+        rw [normpath_err_of_resolve p hr, bind_err]
+      simp [validate, hn, this]
+
+theorem not_nul_of_validate_ok {p : Str} {cs : List Name} (h : validate p = .ok cs) : '\x00' ∉ p := by
+  unfold validate at h
+  split at h
+  · cases h
+  · next h0 => simpa using h0
 
 theorem isRootPath_of_resolve {p : Str} {cs : List Name} (hr : resolve (splitSlash p) = some cs) :
     Wrap.isRootPath p = .ok (decide (cs = [])) := by
